@@ -7,6 +7,11 @@ from .tape import Tape, lazy, m_fy, m_pwg, m_rows
 from .core_runs import same_result, F, fl, arr, call_test, gen_values, CALT, ALTS, qlist, tape_coq, close, global_state, snapshot, wrap_num
 from cryptorandom.cryptorandom import SHA256
 from permute import stratified, ksample, utils, irr
+_REC = []
+stratified = RecordingModule(stratified, _REC, ["sim_corr", "stratified_permutationtest", "stratified_two_sample", "stratified_permutationtest_mean", "corrcoef"])
+ksample = RecordingModule(ksample, _REC, ["k_sample", "bivariate_k_sample"])
+utils = RecordingModule(utils, _REC, ["permute", "permute_within_groups", "permute_rows"])
+irr = RecordingModule(irr, _REC, ["compute_ts", "simulate_ts_dist", "simulate_npc_dist"])
 
 COQ_HEADER = """From PV Require Import Lib.Base Model.Prng Model.Core Model.Stratified Corr.CoreCases Corr.C02.
 Open Scope Q_scope."""
@@ -275,7 +280,7 @@ def oracle_manyreps(c, o):
     return None
 
 
-def run(c):
+def _run_plain(c):
     f = c["f"]
     if f == "manyreps":
         return run_manyreps(c)
@@ -595,7 +600,7 @@ def within_strata_ok(orig, new, g):
     return len(orig) == len(new)
 
 
-def oracle(c, o):
+def _oracle_plain(c, o):
     f = c["f"]
     if f == "pwgx":
         return oracle_pwgx(c, o)
@@ -871,3 +876,19 @@ def nontrivial(c, o):
 
 def key(c):
     return json.dumps(c, sort_keys=True, default=str)
+
+
+def run(c):
+    o = _run_plain(c)
+    if isinstance(o, dict):
+        o["retained_changed"] = retained_changed(_REC)
+    return o
+
+
+def oracle(c, o):
+    if isinstance(o, dict) and o.get("retained_changed"):
+        v = emit({"why": "results kept by the caller changed when later calls were made: " + o["retained_changed"], "cls": "results:p-not-from-dist"})
+        if v: return v
+    if isinstance(o, dict) and "retained_changed" in o:
+        o = {k: v for k, v in o.items() if k != "retained_changed"}
+    return _oracle_plain(c, o)
